@@ -56,6 +56,10 @@ func styleString(s *excelize.Style) string {
 }
 
 func (c *Ctx) checkHistC01(h hist, cases *[]mcase) {
+	c.guard("C01_no_panic", h, func() { c.checkHistC01x(h, cases) })
+}
+
+func (c *Ctx) checkHistC01x(h hist, cases *[]mcase) {
 	f, styles, err := runHist(h)
 	if err != nil {
 		f.Close()
